@@ -104,3 +104,60 @@ Example c02_example_repeated_const :
   plan_ok (mkQuery [mkAtom 0 [AVar 0; AVar 0; AConst 5] []; mkAtom 1 [AVar 0; AVar 1] [CLtConst 1 9]] [0])
           (mkPlan [0; 1] [mkHeader 0 [CEqConst 2 5]] [Intersect 0 [mkScan 0 0 []; mkScan 1 0 [CLtConst 1 9]]]) = false.
 Proof. vm_compute. split; reflexivity. Qed.
+
+(* ================================================================ decomposed (multi-bag) plans *)
+Require Import Verif.gen.PlanFacts Verif.Query.Decomp Verif.Query.DecompProofs.
+
+(** Every bag block of an accepted decomposed plan is an accepted single-bag plan of its block
+    query (the atoms the bag owns as written, the sub-atoms it touches weakened to what it enforces,
+    the materialisation read by the KeyOnly prologue as one more atom over the message variables):
+    on EVERY database - whatever the earlier materialisations contain - and under EVERY run-time
+    stage order the block materialises exactly the matches of that query, seen through the
+    block's message and value variables. *)
+Theorem c02_decomp_block_sound : forall q dp, dplan_ok q dp = true ->
+  forall i b, In (i, b) (iblocks dp) ->
+  forall (d' : db) (ch : chooser),
+    sem_eq (needed b) (run_plan ch (block_plan dp i b) d') (matches (block_query q dp i b) d').
+Proof. exact dplan_block_sound. Qed.
+Print Assumptions c02_decomp_block_sound.
+
+(** The admissible run-time orders are those of the REGENERATED barrier predicate
+    (gen/PlanFacts.v [sort_barrier], from execute.rs sort_plan_by_size): no stage of a bag block
+    is a barrier (any order, covered above) ... *)
+Theorem c02_decomp_bag_stages_movable : forall q dp, dplan_ok q dp = true ->
+  forall i b st, In (i, b) (iblocks dp) -> In st (b_stages b) -> sort_barrier (dstage_kind st) = false.
+Proof. exact dplan_bag_stages_movable. Qed.
+Print Assumptions c02_decomp_bag_stages_movable.
+
+(** ... and every stage of the result block is one, so the result block (Full, then Value lookups
+    keyed by already bound message variables) runs in plan order whatever the order oracle says. *)
+Theorem c02_decomp_result_order : forall q dp, dplan_ok q dp = true ->
+  forall (d : db) (ch : chooser) (rc rc' : list nat), run_dplan ch rc dp d = run_dplan ch rc' dp d.
+Proof. exact dplan_result_order. Qed.
+Print Assumptions c02_decomp_result_order.
+
+(** non-vacuity: a plan the real planner produced (two bags, KeyOnly prologue, Full + Value result
+    block) is accepted and runs to the matches of the query; the same plan with the result stages
+    swapped (Value before its key variable is bound) is rejected and loses every match *)
+Definition ex_dq := (mkQuery [mkAtom 2 [AVar 0; AVar 1; AVar 5; AConst 0] []; mkAtom 2 [AVar 1; AVar 2; AVar 6; AVar 7] []; mkAtom 0 [AConst 0; AVar 3; AVar 2; AVar 8] []; mkAtom 1 [AVar 9; AVar 4; AVar 3] []] [2; 3; 6; 7; 8]).
+Definition ex_dp := (mkDPlan 3 [2; 2; 0; 1] [mkHeader 2 [CEqConst 0 0]; mkHeader 0 [CEqConst 3 0]; mkHeader 2 [CEqConst 0 0]] [mkBSpec [DPlain (Intersect 2 [mkScan 1 1 []; mkScan 2 2 []]); DPlain (Intersect 3 [mkScan 2 1 []; mkScan 3 2 []]); DPlain (Fused 2 [] [(3, 8)] [])] [2] [3; 8]; mkBSpec [DMat 0 MoKeyOnly [(0, 2)] [mkMScan 1 [1] [0] []; mkMScan 2 [2] [0] []]; DPlain (Intersect 1 [mkScan 0 1 []; mkScan 1 0 []]); DPlain (Fused 1 [] [(2, 6); (3, 7)] [])] [] [2; 6; 7]] [mkRStage 1 MoFull [(0, 2); (1, 6); (2, 7)]; mkRStage 0 (MoValue [2]) [(0, 3); (1, 8)]]).
+Definition ex_dp_bad := (mkDPlan 3 [2; 2; 0; 1] [mkHeader 2 [CEqConst 0 0]; mkHeader 0 [CEqConst 3 0]; mkHeader 2 [CEqConst 0 0]] [mkBSpec [DPlain (Intersect 2 [mkScan 1 1 []; mkScan 2 2 []]); DPlain (Intersect 3 [mkScan 2 1 []; mkScan 3 2 []]); DPlain (Fused 2 [] [(3, 8)] [])] [2] [3; 8]; mkBSpec [DMat 0 MoKeyOnly [(0, 2)] [mkMScan 1 [1] [0] []; mkMScan 2 [2] [0] []]; DPlain (Intersect 1 [mkScan 0 1 []; mkScan 1 0 []]); DPlain (Fused 1 [] [(2, 6); (3, 7)] [])] [] [2; 6; 7]] [mkRStage 0 (MoValue [2]) [(0, 3); (1, 8)]; mkRStage 1 MoFull [(0, 2); (1, 6); (2, 7)]]).
+Definition ex_dd : db := [[[0; 0; 0; 0]; [3; 2; 1; 0]; [0; 0; 4; 0]; [0; 0; 3; 0]; [0; 0; 4; 1]; [0; 0; 0; 2]; [0; 3; 0; 3]; [0; 0; 0; 3]; [0; 0; 0; 4]]; [[0; 0; 0]; [0; 0; 2]; [0; 2; 2]; [0; 1; 0]; [4; 0; 0]; [1; 1; 0]]; [[0; 0; 0; 0]; [0; 4; 0; 0]; [0; 2; 0; 0]; [0; 0; 4; 0]; [2; 0; 0; 0]; [2; 4; 0; 0]; [1; 0; 0; 0]; [3; 0; 0; 4]; [0; 4; 2; 0]]].
+
+Example c02_decomp_example_accepts :
+  dplan_ok ex_dq ex_dp = true /\
+  set_eqb (map (proj (q_out ex_dq)) (run_dplan ch_last [] ex_dp ex_dd)) (map (proj (q_out ex_dq)) (matches ex_dq ex_dd)) = true /\
+  length (matches ex_dq ex_dd) <> 0.
+Proof. vm_compute. repeat split; try reflexivity. discriminate. Qed.
+
+Example c02_decomp_example_rejects :
+  dplan_ok ex_dq ex_dp_bad = false /\ run_dplan ch_first [] ex_dp_bad ex_dd = [].
+Proof. vm_compute. split; reflexivity. Qed.
+
+(** the regenerated facts the model relies on *)
+Example c02_decomp_facts :
+  sort_barrier (KFusedIntersectMat MValue) = true /\ sort_barrier (KFusedIntersectMat MLookup) = true /\
+  sort_barrier (KFusedIntersectMat MFull) = true /\ sort_barrier (KFusedIntersectMat MKeyOnly) = false /\
+  sort_barrier KIntersect = false /\ sort_barrier KFusedIntersect = false /\
+  mat_key_part = PMsgVars /\ mat_val_part = PValVars.
+Proof. repeat split; reflexivity. Qed.
